@@ -220,6 +220,18 @@ impl HostTimer {
     pub(crate) fn since_epoch(&self) -> Duration {
         self.since_epoch + self.sim_elapsed()
     }
+
+    /// [`Self::since_epoch`] at the instant last recorded with [`Self::now`],
+    /// without reading the clock.
+    ///
+    /// `Sim::step` needs the time outside the host's runtime context, where
+    /// `Instant::elapsed` falls back to the wall clock: whenever real time
+    /// runs ahead of virtual time the difference would leak into the
+    /// simulation.
+    #[cfg(feature = "unstable-fs")]
+    pub(crate) fn since_epoch_at_now(&self) -> Duration {
+        self.since_epoch + self.start_offset + self.elapsed
+    }
 }
 
 /// Simulated UDP host software.
